@@ -10,30 +10,38 @@ checks = {
  "C18": ("verifier", "must-pass-through + argument-provenance slice over SSA of Phase1/Phase2.Verify x 7 curves", "3.1, 4/C18"),
  "C03": ("conc", "channel-protocol rules (select/ctx pairing, single close on success paths, acyclic wait-for graph, signal on every exit) over SSA/CFG of the 14 provers + error discipline + sibling agreement", "3.6, 4/C03"),
  "C10": ("effects", "effect analysis over the restricted call graph (no store into shared system/key/blueprint objects from Solve/Prove/Verify), option-slice aliasing, reset-before-run ordering, lock discipline", "3.5, 4/C10"),
+ "C04": ("coeffid", "symbolic interpretation (polynomial effects) of every special-coefficient switch on the syntax tree + coefficient-table slot checks", "3.4, 4/C04"),
+ "C05": ("flow", "interprocedural value-flow (per-function summaries over SSA, field-based heap): every hint output / internal wire of the builders reaches a constraint; operands of API operations reach their reviewed sinks", "3.8, 4/C05"),
+ "C12": ("flow", "interprocedural value-flow: emulated-arithmetic hint outputs reach width enforcement, the deferred identity check and the commitment", "3.8, 4/C12"),
+ "C13": ("flow", "interprocedural value-flow: limb / multiplicity / lookup-result wires reach the log-derivative equality and the commitment", "3.8, 4/C13"),
+ "C14": ("flow", "interprocedural value-flow: indicator / mask / partition / byte hint outputs reach their reviewed assertions", "3.8, 4/C14"),
+ "C16": ("flow", "interprocedural value-flow: curve, pairing and tower-field hint outputs and gadget operands reach assertions", "3.8, 4/C16"),
+ "C17": ("flow", "interprocedural value-flow: every field of the inner proof / verifying key / witness operands of the in-circuit verifiers reaches its reviewed assertion sinks", "3.8, 4/C17"),
+ "C19": ("flow", "interprocedural value-flow: GKR solving / proving hint outputs and verifier operands reach the in-circuit verifier's assertions", "3.8, 4/C19"),
  "C11": ("determinism", "map-iteration order-sensitivity classification + package-level state and nondeterminism-source reachability over the compile-time call graph", "3.7, 4/C11"),
 }
 texts = {
  "C01": "Decides structural necessary conditions of Groth16 verifier soundness on every path of the current source: each reviewed check is on every accepting path with the reviewed argument provenance, every proof field is consumed by a check, every proof-supplied list is length-fixed against the key, no error is dropped. It does not decide the algebra (that the checked equation is the right one).",
  "C02": "Same for the PLONK verifier: subgroup checks of every proof point, Fiat-Shamir bindings, algebraic relation, linearised digest MSM, KZG fold and batch verification are must-pass with reviewed provenance; proof fields covered; lists length-fixed.",
  "C08": "Decides that every index/slice of a proof- or witness-supplied slice in the verifiers is dominated by an error-returning length check, and that wrong list lengths are rejected on all accepting paths. Does not decide panics inside gnark-crypto.",
+ "C04": "Narrow: decides that every special-coefficient fast path (solver, Groth16 setup, MPC phase 2) equals the table path for the value its id stands for, and that the coefficient tables hold those values. Does not decide constant folding / merging / splitting / compression semantics.",
+ "C05": "Decides that no hint output or internal wire of the builders and bit-decomposition gadgets is left unconstrained, and that each operand of each API operation still reaches the reviewed constraint sites (kind, strength, number of sites). Does not decide that the emitted constraints are sufficient.",
+ "C12": "Decides that every emulated-arithmetic hint output reaches limb-width enforcement, the deferred multiplication check and the commitment. Does not decide overflow bookkeeping or integer semantics.",
+ "C13": "Decides that every limb, multiplicity and lookup-result wire reaches the log-derivative equality and the commitment. Does not decide the algebra of the argument nor which limbs are looked up.",
+ "C14": "Decides that every indicator / mask / partition / byte hint output reaches its reviewed assertions and that gadget operands reach theirs. Does not decide exact arithmetic semantics or thresholds.",
+ "C16": "Decides that every decomposition / point / line / inverse / residue hint output of the curve and pairing gadgets, and every gadget operand, reaches the reviewed assertions. Does not decide formula correctness or exceptional cases.",
+ "C17": "Decides that every field of the inner proof, key and witness handed to the in-circuit verifiers reaches the reviewed assertion sinks (field-level coverage with site counts). Does not decide accept-set equality with the native verifiers.",
+ "C19": "Decides that the GKR hint outputs and the operands of the in-circuit GKR verifier reach the verifier's assertions and the challenge commitment. Does not decide the sum-check algebra.",
  "C03": "Decides the structural reasons why Prove terminates: no prover stage can wait forever once another failed, each stage channel is closed exactly once on the success path, the wait-for graph is acyclic, goroutines always signal, Solve errors propagate. It does not decide that honest proofs verify (algebra) nor domain sizing.",
  "C10": "Decides that nothing reachable from Solve/Prove/Verify writes memory owned by the shared compiled system, keys, blueprints or caller-owned option slices, that blueprint state is reset before each run and registries are lock-guarded. Reports the lookup-blueprint cache as a known finding. It does not decide equality of results across schedules.",
  "C11": "Decides the absence of the enumerated nondeterminism sources in compile-time code: order-sensitive effects under map iteration, package-level mutable state, clocks/randomness/goroutine order. It does not decide byte equality across processes in general.",
  "C18": "Decides that every accepting exit of the contribution verifiers passes every update-proof check, size guard and the same-ratio check, each tied to the previous contribution's hash and to the reviewed parameter pairs, and that every parameter vector of the contribution is consumed by a check. Does not decide the cryptography of the update proofs.",
 }
 na = {
- "C04": "not yet implemented in this round (coeffid/codec engines pending)",
- "C05": "not yet implemented in this round (flow engine pending)",
  "C06": "not yet implemented in this round",
  "C07": "not yet implemented in this round",
  "C09": "not yet implemented in this round",
- "C12": "not yet implemented in this round",
- "C13": "not yet implemented in this round",
- "C14": "not yet implemented in this round",
  "C15": "equality of two hash functions over all message lengths and contents is a value-level property selected by runtime lengths; no dataflow/typestate/effect/table-agreement rule is a genuine necessary condition beyond what every test vector already exercises (DESIGN.md 4/C15)",
- "C16": "not yet implemented in this round",
- "C17": "not yet implemented in this round",
- "C19": "not yet implemented in this round",
  "C20": "not yet implemented in this round",
 }
 import importlib.util
